@@ -1078,6 +1078,52 @@ def check_components(rng, res, thorough):
         else:
             res.mismatch("text-mode line iteration", s, want, got)
     res.count("component:lines", N)
+    # ---- parse_scsv_schema (terse notation)
+    pt = getattr(I, "parse_scsv_schema", None)
+    if pt is None:
+        res.count("component:parse_scsv_schema absent (skipped)")
+    else:
+        texts = ["d,m-:colA(s)colB(s:N/A:...)colC()colD(i:999999)colE(f:NaN:%)", "", "d", "d,m-:", "d,m-:a", "d,m-:a(", "d,m-:a()",
+                 "d,m-:a()b", "d,m-:a()b(", "x,m-:a()", "d,m:a()", "dmm-:a()", "d,,m:a()", "d:m-:a()", "d,m-a()", "d,m-:a(x)", "d,m-:a(s:1:2:3)",
+                 "d,m-:a(s:1:2)junk", "d,m-:(s)", "d,m-:a(:fill)", "d,m-:a(::unit)", "d,m-:a)b(", "d\tmNA:a(f:NaN)", "d,m-:a((s))"]
+        for _ in range(N):
+            r = rng.random()
+            if r < 0.5:
+                dl = str(rng.choice([",", ";", "|", "\t", ",,", "d", " "])) if rng.random() < 0.85 else str(rng.choice(["m", ":", ""]))
+                ms = str(rng.choice(["-", "NA", "--", "N/A", "?", "nan"])) if rng.random() < 0.85 else str(rng.choice(["", "m", "x:y", "("]))
+                t = "d" + dl + "m" + ms + ":"
+                for _k in range(int(rng.integers(1, 6)) if rng.random() < 0.9 else 0):
+                    name = rand_text(rng, list("abC_1 ():"), 4) if rng.random() < 0.2 else rand_text(rng, list("abcXYZ_01"), 5)
+                    spec = str(rng.choice(["", "s", "i", "f", "b", "c", "s", "i", "f", "b", "c", "", "x", "si", "S"]))
+                    if rng.random() < 0.7:
+                        spec += ":" + rand_text(rng, list("NaN-019./ "), 4)
+                        if rng.random() < 0.5:
+                            spec += ":" + rand_text(rng, list("m/s% :()"), 4)
+                            if rng.random() < 0.1:
+                                spec += ":extra"
+                    t += name + "(" + spec + ")"
+                if rng.random() < 0.1:
+                    t += rand_text(rng, list("ab()"), 3)
+                texts.append(t)
+            else:
+                texts.append(rand_text(rng, list("d,m-:()sifbc aN/"), 14))
+        wants = []
+        for t in texts:
+            try:
+                sch = pt(t)
+                want = "ok s" + hx(sch["delimiter"]) + " s" + hx(sch["missing"]) + " " + str(len(sch["fields"])) + " " + " ".join(
+                    "s" + hx(f["name"]) + " s" + hx(f["type"]) + " " + ("s" + hx(f["unit"]) if "unit" in f else "-") + " s" + hx(f["fill"])
+                    for f in sch["fields"])
+            except Exception as e:  # noqa: BLE001
+                want = "err " + _classify(e)
+            wants.append(want)
+        for t, want, out in zip(texts, wants, _run_driver(["scsv-terse s" + hx(t) for t in texts])):
+            res.evaluations += 1
+            res.count("component:parse_scsv_schema:" + ("ok" if want.startswith("ok") else want))
+            if out.strip() == want.strip():
+                res.traces += 1
+            else:
+                res.mismatch("parse_scsv_schema", t, want, out)
     # ---- _validate_scsv_schema and _parse_scsv_cell directly
     val = getattr(I, "_validate_scsv_schema", None)
     pc = getattr(I, "_parse_scsv_cell", None)
